@@ -10,7 +10,9 @@
 (*   hands the very same object back, find/get lend it, dup makes the copy own fresh copies.        *)
 (* Kind "map": set(k, v) COPIES: the caller keeps its key and value objects and may change or       *)
 (*   delete them at once; remove hands back a pair the caller must delete; get lends; the listings  *)
-(*   (keys, values, pairs) are new lists of copies owned by the caller.                             *)
+(*   (keys, values, pairs) are new lists of copies owned by the caller.  The values the program     *)
+(*   stores may be composite objects (url, pair, list: a harness variant), and it may hand the map   *)
+(*   back what the map itself returned, or a component of it.                                        *)
 EXTENDS Integers, Sequences, FiniteSets, TLC, Json
 CONSTANTS H,              \* handles: small positive integers
           Val,            \* [H -> value]: the text of each object; several handles may carry EQUAL values - the
@@ -87,8 +89,18 @@ OpMapRemove(k) == /\ Map_ /\ Live /\ own[k] = "prog" /\ held.pairs < Cap
                   /\ IF Val[k] \in keys THEN Step("map_remove", <<k>>, TRUE, own, cont, keys \ {Val[k]}, copy, Bump("pairs"))
                                         ELSE Step("map_remove", <<k>>, FALSE, own, cont, keys, copy, held)
 OpDelPair   == /\ held.pairs > 0 /\ Step("del_pair", <<>>, TRUE, own, cont, keys, copy, Drop("pairs"))
-OpListing(w) == /\ Map_ /\ Live /\ held.lists < Cap          \* w in keys / values / pairs
-                /\ Step("listing", <<w>>, Cardinality(keys), own, cont, keys, copy, Bump("lists"))
+\* listings go into a destination list: none (the library makes one), or one the program supplies in any of the states
+\* an empty list can be in - fresh, the copy of an empty list, emptied again, after done() - or already holding an element
+Dest == {"null", "fresh", "dup_empty", "emptied", "done", "holding"}
+OpListing(w, d) == /\ Map_ /\ Live /\ held.lists < Cap       \* w in keys / values / pairs
+                   /\ Step("listing", <<w, d>>, Cardinality(keys) + (IF d = "holding" THEN 1 ELSE 0), own, cont, keys, copy, Bump("lists"))
+\* aliasing: the value handed to set() is the very object the map returned for that key (set_same), or a COMPONENT of
+\* it (set_part: the host of a stored url, the value of a stored pair, the first element of a stored list) - the map copies
+\* what it is handed before it lets go of what it held
+OpSetSame(k) == /\ Map_ /\ Live /\ own[k] = "prog" /\ Val[k] \in keys
+                /\ Step("set_same", <<k>>, TRUE, own, cont, keys, copy, held)
+OpSetPart(k) == /\ Map_ /\ Live /\ own[k] = "prog" /\ Val[k] \in keys
+                /\ Step("set_part", <<k>>, TRUE, own, cont, keys, copy, held)
 OpDelListing == /\ held.lists > 0 /\ Step("del_listing", <<>>, TRUE, own, cont, keys, copy, Drop("lists"))
 
 (* both kinds *)
@@ -105,9 +117,9 @@ OpRenew     == /\ cont = "deleted" /\ Step("renew", <<>>, TRUE, own, "live", {},
 Init == /\ own = [h \in H |-> "none"] /\ cont = "live" /\ order = <<>> /\ keys = {} /\ copy = "none"
         /\ held = [pairs |-> 0, lists |-> 0, arrays |-> 0, iters |-> 0]
 Next == \/ \E h \in H : OpCreate(h) \/ OpTouch(h) \/ OpDelete(h) \/ OpGive(h) \/ OpGiveRefused(h) \/ OpTakeBack(h) \/ OpLend(h)
-                        \/ OpMapGet(h) \/ OpMapRemove(h)
+                        \/ OpMapGet(h) \/ OpMapRemove(h) \/ OpSetSame(h) \/ OpSetPart(h)
         \/ \E k, v \in H : OpSet(k, v)
-        \/ \E w \in {"keys", "values", "pairs"} : OpListing(w)
+        \/ \E w \in {"keys", "values", "pairs"}, d \in Dest : OpListing(w, d)
         \/ OpTakeFirst \/ OpToArray \/ OpFreeArray \/ OpDelPair \/ OpDelListing
         \/ OpIterNew \/ OpIterDel \/ OpDup \/ OpDelCopy \/ OpDone \/ OpDelCont \/ OpRenew
 Spec == Init /\ [][Next]_vars
